@@ -43,20 +43,38 @@ Oracle (independent of the model, on the real objects): O1 every id whose basis
     + 1, all_revision_ids = before + {new}; O6 a commit that raises leaves
     all_revision_ids, the tip, the basis and the working inventory unchanged.
 
-Findings on the unchanged code are reported with a family slug computed from
-the failing case (see `classify_*`): late exceptions (after builder.commit)
-leave the revision in the repository / the tip moved; git: in-place kind
-change drops the path from the index; dirstate: an unselected entry sitting at
-the path a selected entry was renamed away from is committed as well.
+Findings on the unchanged code, each reported with a family slug computed from
+the failing case:
+ revision-left-after-late-exception:pre_commit-hook | :set_last_revision_info
+     (DESIGN 7-F6) an exception raised after builder.commit() - by a pre_commit hook
+     in _update_branches -> _process_pre_hooks, or by the write of branch/last-revision -
+     makes commit() raise with the tip unchanged but the new revision in all_revision_ids()
+ exception-after-tip-update:update_basis_by_delta | :post_commit-hook
+     commit() raises although the branch tip already moved
+ excluded-child-left-below-non-directory
+     commit(exclude=[child]) after a directory was replaced by a file and its child removed:
+     filter_excluded drops the child's removal, the delta is accepted and the committed
+     inventory cannot be read back (model variant `lax`, theorem excluded_child_corrupt_witness;
+     the variant is selected by a probe, so the check follows a repair)
+ git-kind-change-dropped-from-index
+     git: a file <-> symlink change at one path is committed, but update_basis_by_delta
+     processes "add c" before "remove c" and drops c from the index
+ git-partial-commit-file-directory-conflict
+     git: a selected path lies below a path that stays a file: GitCommitBuilder silently
+     drops one of them instead of refusing
+ dirstate-unselected-entry-at-vacated-path
+     bzr: the compiled dirstate comparison also reports the (unselected) entry that now sits
+     where a selected entry was renamed away from; its pending change is committed too
 
-Mutants tried in a scratch worktree (see the builder's report for results):
- m1 filter_excluded: only the new path is tested for exclusion
- m2 _filter_iter_changes: missing entries are not turned into deletions (skipped)
- m3 Commit.commit: `except Exception` block does not call builder.abort()
- m4 record_iter_changes: executable bit taken from the old side
- m5 _update_branches / commit: deleted_paths not unversioned
- m6 GitCommitBuilder.record_iter_changes: old path of a rename not deleted
- harmless: filter_excluded rewritten with a single combined condition
+Mutants tried in a scratch worktree (finding families above ignored):
+ m1 filter_excluded: old path not tested for exclusion             -> oracle O2 (excluded id committed) + T2
+ m2 _filter_iter_changes: missing entries skipped, not deleted      -> oracle O1/O4 + T2
+ m3 Commit.commit: except block without builder.abort()            -> oracle (write group left open under the caller's lock) + T2 fault line
+ m4 record_iter_changes: executable bit taken from the old side     -> oracle O1/O4
+ m5 Commit.commit: deleted_paths not unversioned                    -> oracle O4 + T2
+ m6 GitCommitBuilder: old path of a rename not deleted              -> oracle O1 (rename pair) + T2 git line (corpus 01)
+ m7 _filter_iter_changes: changes with versioned[1] False dropped   -> oracle O1/O4
+ harmless: filter_excluded with one combined condition              -> clean
 """
 import os
 import shutil
@@ -66,7 +84,7 @@ from vlib import env
 THEOREMS = [
     "commitTree_get", "commit_selected", "commit_unselected", "commit_wf", "commit_paths_agree", "commit_paths_selected",
     "commit_all", "commit_only_changed", "commit_excluded_untouched", "status_after_commit",
-    "closure_insufficient_witness",
+    "commit_wf_lax_partial", "excluded_child_corrupt_witness", "closure_insufficient_witness",
     "git_written", "git_untouched", "git_deleted",
     "commit_abort_noop_partial", "late_fault_leaves_revision_witness", "late_fault_moves_tip_witness", "commit_no_fault",
 ]
